@@ -326,6 +326,9 @@ pub struct RunResult {
 /// `writer_bias` value that turns `replay_choices` into a forced prefix: afterwards the run continues with the
 /// non-preemptive default policy (keep the running thread while it can run, else the lowest-numbered one).
 pub const PREFIX_MODE: u64 = u64::MAX;
+/// Like `PREFIX_MODE`, but the prefix is a wish list (an entry naming a thread that cannot run is replaced by the
+/// default choice instead of counting as a divergence) and the run continues with the random policy (writer bias 4).
+pub const LENIENT_PREFIX_MODE: u64 = u64::MAX - 1;
 
 fn lw(res: u8, rep: Option<u8>, dl: bool, fl: bool) -> Sx {
     sx::tag(9, vec![sx::n(res), sx::n(rep.map(|r| r as u64 + 1).unwrap_or(0)), sx::boolean(dl), sx::boolean(fl)])
@@ -596,6 +599,11 @@ pub fn run_scheduled(plan: &Plan, rng: &mut Rng, replay_choices: Option<&[usize]
                 replay_pos += 1;
                 match c {
                     Some(c) if runnable.contains(&c) => c,
+                    Some(_) if writer_bias == LENIENT_PREFIX_MODE => runnable[0],
+                    None if writer_bias == LENIENT_PREFIX_MODE => {
+                        let total = runnable.len() as u64;
+                        runnable[rng.below(total) as usize]
+                    }
                     None if writer_bias == PREFIX_MODE => {
                         let last = res.choices.last().copied();
                         // the writer never blocks with the 1 us interval: do not let it starve the others
